@@ -308,6 +308,14 @@ func TestC19_Search(t *testing.T) {
 	rapid.Check(t, func(t *rapid.T) {
 		cmds, cls := gen.DB(t, gen.CmdOpts{Sized: true, Heavy: true}, []int{0, 1, 3, 10, 1})
 		db := gen.Load(t, cmds)
+		made := rapid.SampledFrom([]string{"loaded", "loaded", "made", "made+indexed"}).Draw(t, "database-made-by")
+		switch made {
+		case "made": // entries made by the program, everything built on first use
+			db = &database.Database{Commands: cloneCmds(cmds)}
+		case "made+indexed": // the same with the exported index builder called up front (no reranker state yet)
+			db = &database.Database{Commands: cloneCmds(cmds)}
+			db.BuildUniversalIndex()
+		}
 		q, _ := gen.Query(t, cmds, []gen.QueryClass{"vocab", "vocab", "nlp", "mixed", "typo"})
 		opt := gen.Options(t, gen.OptSpec{N: len(cmds), BigLimit: true, NoPlatforms: true})
 		base := rank(db, db.SearchUniversal(q, opt))
@@ -355,7 +363,16 @@ func TestC19_Search(t *testing.T) {
 			}
 		}
 		with := db.SearchUniversal(q, opt)
+		// the stage leaves nothing behind: asking again gives the same answer, and without the index the old one
+		for rep := rapid.IntRange(0, 2).Draw(t, "asked-again"); rep > 0; rep-- {
+			if again := db.SearchUniversal(q, opt); !rankEq(rank(db, with), rank(db, again)) {
+				t.Fatalf("the same search with the same embedding index attached (database %s) answers differently the next time:\n first %s\n again %s\n query %q options %v", made, rankStr(rank(db, with)), rankStr(rank(db, again)), q, optBrief(opt))
+			}
+		}
 		database.VerifSetEmbeddingIndex(db, nil)
+		if after := rank(db, db.SearchUniversal(q, opt)); !rankEq(base, after) {
+			t.Fatalf("after the embedding index was detached (database %s) the search no longer answers as before it was attached:\n before %s\n after  %s\n query %q options %v", made, rankStr(base), rankStr(after), q, optBrief(opt))
+		}
 		wr := rank(db, with)
 		b0, b1 := map[int]float64{}, map[int]float64{}
 		for _, x := range base {
@@ -386,7 +403,7 @@ func TestC19_Search(t *testing.T) {
 				t.Fatalf("result list not ordered after the semantic stage: %s", rankStr(wr))
 			}
 		}
-		labels := []string{"search", "db:" + string(cls)}
+		labels := []string{"search", "db:" + string(cls), "database:" + made}
 		if hostile {
 			labels = append(labels, "hostile-vectors")
 		}
